@@ -86,7 +86,10 @@ out = ["### 10.6 Seeded changes (from independent sub-agents) and which check ca
        "the quick tier printed at seed 1 with the patch applied (`lib/muttest.sh`, logs under `seeded/logs/`).",
        "Monitors that missed their seeded change at first and were strengthened (what was added is in the notes column): "
        + ", ".join(sorted(k for k, v in notes.items() if "missed" in v.get("notes", ""))) + ".",
-       "Patches that had to be ported because later `fix:` commits touched their context: C12, C20 (`patch.orig.diff` is the original).", "",
+       "Patches that had to be ported because later `fix:` commits touched their context: C12, C20 (`patch.orig.diff` is the original).",
+       "`lib/muttest.sh` applies the patch to a scratch worktree of /repo's HEAD and builds a private copy of the harness against it - the",
+       "same monitors, oracles and known-findings filter as `git -C /repo apply <patch>; ./check CNN; git -C /repo checkout -- .`, which was",
+       "not used because /repo was busy with sweeps and `fix:` work for most of the session.", "",
        "| seeded | property | what it needs to manifest | caught by (quick, seed 1) | notes |", "|---|---|---|---|---|"]
 esc = lambda s: str(s).replace("|", "\\|").replace("\n", " ")
 for d, prop, m in rows:
